@@ -437,3 +437,40 @@ def segments(runs, tag="exp", end_label=lambda r: ("END",)):
         s.dist = val(root, 0)
         out.append(s)
     return out
+
+
+def outcome_dist(runs, label):
+    """Distribution over label(run) for a completely explored function, with rejection loops
+    closed at the node they return to.  Returns {label: prob} (may contain ('LIVELOCK',))."""
+    root = {}
+    for r in runs:
+        node = root
+        for kind, probs, c, info in r.trace:
+            node.setdefault("p", probs)
+            if node["p"] != probs:
+                raise HarnessError("same prefix, different choice point (nondeterminism)")
+            node = node.setdefault("k", {}).setdefault(c, {})
+        node["leaf"] = ("LOOP", r.cut) if r.cut is not None else ("OUT", label(r))
+
+    def val(node, depth):
+        if "leaf" in node:
+            return {node["leaf"]: 1.0}
+        acc = {}
+        probs = node["p"]; kids = node["k"]
+        if len(kids) != len(probs):
+            raise HarnessError("incomplete exploration below a choice point")
+        for c, kid in kids.items():
+            for lf, p in val(kid, depth + 1).items():
+                acc[lf] = acc.get(lf, 0.0) + probs[c] * p
+        q = acc.pop(("LOOP", depth), 0.0)
+        if q > 0:
+            if q >= 1 - 1e-12:
+                return {("LIVELOCK",): 1.0}
+            for lf in acc:
+                acc[lf] /= (1 - q)
+        return acc
+    out = {}
+    for lf, p in val(root, 0).items():
+        k = lf[1] if lf[0] == "OUT" else lf
+        out[k] = out.get(k, 0.0) + p
+    return out
